@@ -72,7 +72,7 @@ pub fn run_case(case: &Value) -> Value {
         let r = Pin::new(reader).poll_next(&mut cx);
         let wake = cnt.get() > w0;
         match r {
-            Poll::Ready(Some((s, j))) => json!({"r": "item", "s": s, "n": j, "wake": wake}),
+            Poll::Ready(Some((s, j))) => json!({"r": "item", "src": s, "n": j, "wake": wake}),
             Poll::Ready(None) => json!({"r": "done", "wake": wake}),
             Poll::Pending => json!({"r": "pending", "wake": wake}),
         }
